@@ -20,7 +20,7 @@ RULE = ("generated assemblies over every supported geometry, 1..4 modules, each 
         "survive and at least one expected to be dropped; distinct = distinct input sets.")
 ASSUMPTIONS = ["features have exact positions; 'generated' product features are those of type source without a uid",
                "citation qualifiers are compared by C10, all other qualifiers here"]
-FLOORS = {"c08_judged": 400, "c08_nontrivial": 150, "c08_features_expected_to_survive": 500, "c08_features_expected_dropped": 500, "c08_registry_judged": 8}
+FLOORS = {"c08_reassembled_after_edit": 100, "c08_judged": 400, "c08_nontrivial": 150, "c08_features_expected_to_survive": 500, "c08_features_expected_dropped": 500, "c08_registry_judged": 8}
 MUST_REACH = ["AbstractModule.target_sequence", "AbstractVector.target_sequence", "CircularRecord.__rshift__"]
 NEEDS_REGISTRIES = True
 BUDGET_S = {"quick": 900, "thorough": 7200}
@@ -31,9 +31,9 @@ def setup(tier):
 
 
 def cases(tier, seed):
-    per = 30 if tier == "quick" else 1500
+    per = 30 if tier == "quick" else 5000
     out = _embedded.assembly_cases(seed, per * len(gen.enzyme_names()), features=True, max_chain=4)
-    out += _embedded.registry_assembly_cases(seed, per_vector=1 if tier == "quick" else 10)
+    out += _embedded.registry_assembly_cases(seed, per_vector=1 if tier == "quick" else 30)
     return out
 
 
@@ -66,6 +66,28 @@ def execute(mat, ctx):
     before = (ctx.counters["c08_judged"], ctx.counters["c08_nontrivial"])
     if mat["kind"] == "assembly-mat":
         res = _embedded.run_assembly(mat, ctx)
+        if res["outcome"] == "product" and mat["id"].endswith(("1", "4", "7")):
+            # same entity objects, edited annotation, assembled again: the product must inherit the table the inputs carry *now*
+            import warnings
+            from Bio.SeqFeature import SeqFeature, FeatureLocation
+            for e in [res["vector"]] + res["modules"]:
+                rec = e.record
+                spec = mat["vector"] if e is res["vector"] else mat["modules"][res["modules"].index(e)]
+                geomk = 1
+                f0 = (spec["built"]["frag_start_unrotated"] - spec["built"]["rot_left"]) % len(rec)
+                a = (f0 + 1) % len(rec)
+                rec.features.append(SeqFeature(FeatureLocation(a, a + 1, 1), type="misc_feature", qualifiers={"uid": [rec.id + ".late"], "note": ["added later"]}))
+                for f in rec.features[:2]:
+                    f.qualifiers["note"] = ["corrected"]
+                if len(rec.features) > 3:
+                    del rec.features[2]
+            with warnings.catch_warnings():
+                warnings.simplefilter("ignore")
+                try:
+                    res["vector"].assemble(*res["modules"], id=mat["id"], name=mat["name"])
+                except Exception:
+                    pass
+            ctx.count("c08_reassembled_after_edit")
         sig = [mat["enzyme"], mat["vector"]["seq"], [m["seq"] for m in mat["modules"]], [f["parts"] for f in mat["vector"]["features"]]]
         sample = {"kind": "generated", "enzyme": mat["enzyme"],
                   "features": [[f["quals"]["uid"][0], f["quals"]["note"][0], f["parts"]] for s in [mat["vector"]] + mat["modules"] for f in s["features"]][:8]}
